@@ -62,6 +62,9 @@ func TestCheck(t *testing.T) {
 		{name: "BufRingImpl", opts: tlc.Opts{Dir: specDir, Module: "BufRingImpl", Config: ev.Pick("BufMC_small.cfg", "BufMC_big.cfg"), Workers: 2, Timeout: ev.Pick(4*time.Minute, 20*time.Minute), Args: noTE}},
 		{name: "BufRingImpl/defect-unlink-one-early", wantDefect: true, opts: tlc.Opts{Dir: specDir, Module: "BufRingImpl", Config: "BufMC_defect.cfg", Workers: 2, Timeout: 3 * time.Minute, Args: noTE}},
 	}
+	if ev.Thorough() { // MC_big.cfg: 3 processes on the map over 2 keys; MC_big_atomic.cfg: 3 processes on the atomic map
+		jobs = append(jobs, &mcJob{name: "CMapImpl/atomic", opts: tlc.Opts{Dir: specDir, Module: "CMapImpl", Config: "MC_big_atomic.cfg", Workers: 4, Timeout: 30 * time.Minute, HeapMB: 8000, Args: noTE}})
+	}
 	evals := int64(0)
 	traces := int64(0)
 
